@@ -28,6 +28,9 @@ deriving DecidableEq, Repr
 inductive Op where
   | push (ch v : Nat)
   | pop (ch : Nat)
+  /-- `(select (ch v …) …)`: receive from one of the listed channels that has an item (clauses on
+      time channels only add the possibility of waking up without receiving: no step) -/
+  | sel (chs : List Nat)
   | lock (m : Nat)
   | unlock (m : Nat)
   /-- first half of `(setq c (1+ c))`: read the shared counter into the thread's register -/
@@ -83,19 +86,31 @@ def init : Config :=
 /-- the operation thread `t` is about to execute (none: finished or no such thread) -/
 def Sys.cur (S : Sys) (c : Config) (t : Nat) : Option Op := (S.prog t)[c.pc t]?
 
-/-- some thread is waiting at `pop ch` (needed for a push on an unbuffered channel) -/
+/-- some thread is waiting at `pop ch` or at a select listing `ch` (needed for a push on an
+    unbuffered channel) -/
 def receiverReady (S : Sys) (c : Config) (ch : Nat) : Bool :=
-  (List.range S.progs.length).any (fun t => S.cur c t == some (Op.pop ch))
+  (List.range S.progs.length).any (fun t =>
+    match S.cur c t with
+    | some (.pop ch') => ch' == ch
+    | some (.sel chs) => chs.contains ch
+    | _ => false)
 
 def canPush (S : Sys) (c : Config) (ch : Nat) : Bool :=
   if S.cap ch = 0 then (c.queue ch).isEmpty && receiverReady S c ch
   else (c.queue ch).length < S.cap ch
 
+/-- the channel a select receives from: the `k`-th (cyclically) of the listed channels that hold
+    an item; `k` is the runtime's choice, part of the schedule -/
+def selChan (c : Config) (chs : List Nat) (k : Nat) : Option Nat :=
+  let ready := chs.filter (fun ch => !(c.queue ch).isEmpty)
+  ready[k % ready.length]?
+
 def advance (c : Config) (t : Nat) (e : Event) : Config :=
   { c with pc := upd c.pc t (c.pc t + 1), trace := c.trace ++ [e] }
 
-/-- one step of thread `t`; `none` when the thread is finished or blocked -/
-def step (S : Sys) (c : Config) (t : Nat) : Option Config :=
+/-- one step of thread `t` (`k`: the runtime's choice when a select has several ready channels);
+    `none` when the thread is finished or blocked -/
+def step (S : Sys) (c : Config) (t : Nat) (k : Nat) : Option Config :=
   match S.cur c t with
   | none => none
   | some (.push ch v) =>
@@ -106,6 +121,13 @@ def step (S : Sys) (c : Config) (t : Nat) : Option Config :=
       match c.queue ch with
       | [] => none
       | it :: rest => some (advance { c with queue := upd c.queue ch rest } t (.popped t ch it))
+  | some (.sel chs) =>
+      match selChan c chs k with
+      | none => none
+      | some ch =>
+          match c.queue ch with
+          | [] => none
+          | it :: rest => some (advance { c with queue := upd c.queue ch rest } t (.popped t ch it))
   | some (.lock m) =>
       match c.owner m with
       | none => some (advance { c with owner := upd c.owner m (some t) } t (.locked t m))
@@ -126,13 +148,13 @@ def step (S : Sys) (c : Config) (t : Nat) : Option Config :=
           else none
 
 /-- the scheduler's choice is tried; a blocked or finished thread leaves the configuration as is -/
-def stepOrStay (S : Sys) (c : Config) (t : Nat) : Config :=
-  match step S c t with
+def stepOrStay (S : Sys) (c : Config) (tk : Nat × Nat) : Config :=
+  match step S c tk.1 tk.2 with
   | some c' => c'
   | none => c
 
-/-- run a whole schedule -/
-def exec (S : Sys) (c : Config) : List Nat → Config
+/-- run a whole schedule: a list of (thread id, choice) pairs -/
+def exec (S : Sys) (c : Config) : List (Nat × Nat) → Config
   | [] => c
   | t :: ts => exec S (stepOrStay S c t) ts
 
@@ -208,6 +230,7 @@ def guardedFrom (g : Nat → Nat) : List Nat → List Op → Bool
   | hs, .unlock m :: rest => guardedFrom g (hs.erase m) rest
   | hs, .push _ _ :: rest => guardedFrom g hs rest
   | hs, .pop _ :: rest => guardedFrom g hs rest
+  | hs, .sel _ :: rest => guardedFrom g hs rest
 
 def Sys.guarded (S : Sys) (g : Nat → Nat) : Bool :=
   S.progs.all (fun p => guardedFrom g [] p)
@@ -224,6 +247,8 @@ inductive Stmt where
   | seq (a b : Stmt)
   | push (ch v : Nat)
   | pop (ch : Nat)
+  /-- one receive through `select` over the channels `chs` -/
+  | sel (chs : List Nat)
   /-- `(setq c (1+ c))` on a shared counter -/
   | incr (c : Nat)
   /-- `(with-mutex-lock m body)` -/
@@ -245,6 +270,7 @@ def compile : Stmt → List Op × Bool
           | (ob, fb) => (oa ++ ob, fb)
   | .push ch v => ([.push ch v], false)
   | .pop ch => ([.pop ch], false)
+  | .sel chs => ([.sel chs], false)
   | .incr k => ([.load k, .store k], false)
   | .withLock m b => match compile b with
       | (ob, fb) => (.lock m :: ob ++ [.unlock m], fb)
